@@ -12,6 +12,10 @@ pub enum Source {
     TIter,
     /// the option view (`opt()`); only for null-aware element types
     OptView,
+    /// an owned iterator of unknown length: `into_iter().filter(..)` (size hint (0, Some(n)))
+    Filtered,
+    /// a borrowed iterator of unknown length: `titer().flat_map(once)` (size hint (0, None))
+    FlatMapped,
 }
 
 fn c_usize(n: usize) -> Cell {
@@ -59,6 +63,14 @@ where
                     let $it = view.titer();
                     $body
                 }
+                Source::Filtered => {
+                    let $it = v.clone().into_iter().filter(|_| true);
+                    $body
+                }
+                Source::FlatMapped => {
+                    let $it = v.titer().flat_map(std::iter::once);
+                    $body
+                }
             }
         };
     }
@@ -88,6 +100,8 @@ where
             Source::Owned => vec![c_usize(v.clone().vcount_value(T::enc(t)))],
             Source::TIter => vec![c_usize(v.titer().vcount_value(T::enc(t)))],
             Source::OptView => vec![c_usize(v.opt().titer().vcount_value(T::enc(t).to_opt()))],
+            Source::Filtered => vec![c_usize(v.clone().into_iter().filter(|_| true).vcount_value(T::enc(t)))],
+            Source::FlatMapped => vec![c_usize(v.titer().flat_map(std::iter::once).vcount_value(T::enc(t)))],
         },
         VFirst => vec![on!(|it| d(it.vfirst()))],
         VLast => vec![on!(|it| d(it.vlast()))],
@@ -109,6 +123,8 @@ where
             Source::Owned => v.clone().vcov(w.clone(), mp).dec(),
             Source::TIter => v.titer().vcov(w.titer(), mp).dec(),
             Source::OptView => v.opt().titer().vcov(w.opt().titer(), mp).dec(),
+            Source::Filtered => v.clone().into_iter().filter(|_| true).vcov(w.clone().into_iter().filter(|_| true), mp).dec(),
+            Source::FlatMapped => v.titer().flat_map(std::iter::once).vcov(w.titer().flat_map(std::iter::once), mp).dec(),
         }],
         VCorr(mp) => vec![c_f(on!(|it| it.vcorr_pearson::<f64, _, _>(w.titer(), mp)))],
         NVSumFilter => {
